@@ -108,6 +108,34 @@ else:
     check_failure_discards = False
     pos = [(need_one(rest, pat, what), name) for name, pat, what in CHECKS]
 pos += [(need_one(rest, pat, what), name) for name, pat, what in LATER]
+
+# where the version rows of staged purges are destroyed: inside the write loop (right before the
+# row's own write), or as a step of its own somewhere else in `commit`
+RV = r"\.\s*remove_versions\s*\("
+lm0 = re.search(LATER[0][1], rest)
+loop0 = block_after(rest, lm0.end())
+loop_start = rest.index("{", lm0.end())
+loop_end = loop_start + len(loop0) + 1
+rv_all = [m.start() for m in re.finditer(RV, rest)]
+rv_in = [p for p in rv_all if loop_start < p < loop_end]
+rv_out = [p for p in rv_all if not (loop_start < p < loop_end)]
+if len(rv_in) > 1 or len(rv_out) > 1 or not rv_all:
+    die(f"{T}: remove_versions is called {len(rv_in)} time(s) inside and {len(rv_out)} time(s) outside the commit write loop")
+purge_in_loop = bool(rv_in)
+if rv_in:
+    # it must come before the row's own write, guarded by the staged purge of that id
+    wpos = re.search(r"self\s*\.\s*write\s*\(", loop0)
+    rpos = re.search(RV, loop0)
+    if not (wpos and rpos and rpos.start() < wpos.start()):
+        die(f"{T}: remove_versions does not precede self.write( inside the commit loop")
+    if not re.search(r"self\s*\.\s*purges\s*\.\s*get\s*\(\s*&id\s*\)", loop0):
+        die(f"{T}: the in-loop remove_versions is not guarded by self.purges.get(&id)")
+if rv_out:
+    # a purge destroyed in the loop *and* elsewhere would be two erasures; one outside becomes a step
+    if rv_in:
+        die(f"{T}: remove_versions both inside and outside the commit write loop")
+    p0 = rv_out[0]
+    pos.append((p0, "eraseVersions"))
 order = [name for _, name in sorted(pos)]
 
 # the write loop body
@@ -273,6 +301,7 @@ st_rule = bool(re.search(r"row\s*\.\s*committed_at\s*\.\s*as_str\s*\(\s*\)\s*<=\
 
 FACTS = """theorem gen_commit_order :
     commitOrder = [.governance, .refClosure, .keyIdentity, .writeLoop, .discardUnstaged, .journal, .flush] := by decide
+theorem gen_purge_in_loop : purgeErasureInLoop = true := by decide
 theorem gen_dry_run : (dryRunFirst && dryRunDiscardsShells && dryRunReturns && !dryRunWrites) = true := by decide
 theorem gen_write_loop :
     (loopSkipsUnchanged && versionRuleOncePerElement && loopWritePropagatesError && statusRule &&
@@ -309,6 +338,8 @@ namespace AndaVerif.Gen.NexusOrder
 /-- the steps of the non-dry half of `Transaction::commit` -/
 inductive CommitStep where
   | governance | refClosure | keyIdentity | writeLoop | discardUnstaged | journal | flush
+  /-- `remove_versions` of the staged purges as a step of its own (only when it is *not* inside the write loop) -/
+  | eraseVersions
   deriving DecidableEq, Repr
 
 /-- their order in the source (first occurrence of each call in the body of `commit`) -/
@@ -320,6 +351,8 @@ def dryRunDiscardsShells : Bool := {b(dry_discards)}
 def dryRunReturns : Bool := {b(dry_returns)}
 def dryRunWrites : Bool := {b(dry_writes)}
 
+/-- `remove_versions` for a staged purge runs inside the write loop, right before that row's write -/
+def purgeErasureInLoop : Bool := {b(purge_in_loop)}
 /-- inside the write loop -/
 def loopSkipsUnchanged : Bool := {b(skips_unchanged)}
 /-- `version = if staged.is_new {{ 1 }} else {{ staged.row.version().saturating_add(1) }}` (loop and change_records) -/
